@@ -93,13 +93,19 @@ def m_bind(st, u, l):
         st["applies_to"][l] = u
 
 
-def run(ctx):
+def run_warnings_as_errors(ctx):
+    """an assignment that a warning-turned-error ends must leave the binding a partial bijection (I19)"""
+    run(ctx, warn=True)
+
+
+def run(ctx, warn=False):
     res = ctx.res
     res.rule_text = ("inductive step for I19 (u.laws is L <=> L.applies_to is u): every consistent binding of 2 universes x 3 law sets x every assignment from either side "
                      "(to each object or None) and universe construction with/without laws; outcome must return normally and equal the partial-bijection model")
     res.trusted_base = common.TRUSTED_AE
     res.assumptions = ["UniverseLaws(applies_to=u) with a non-default applies_to is not part of the statement's histories (noted, not harnessed)"]
-    common.own_rule(ctx, ["Universe._laws", "UniverseLaws._applies_to"])
+    if not warn:
+        common.own_rule(ctx, ["Universe._laws", "UniverseLaws._applies_to"])
     h = H(ctx.src)
     I = h.I
     n = 0
@@ -134,9 +140,15 @@ def run(ctx):
                 res.ob(False)
                 res.undecide(f"{op} {x} {y} on binding {bind}: {u}")
                 continue
+            if warn and not common.warned(out):
+                continue
             n += 1
             why = None
-            if out.kind == "raise":
+            if warn:
+                post = p.project()
+                bad = i19(post)
+                why = ("I19 broken: " + "; ".join(bad[:3])) if bad else None
+            elif out.kind == "raise":
                 why = f"raised {out.excname}: every such assignment must succeed"
                 post = p.project()
             else:
@@ -172,7 +184,7 @@ def run(ctx):
                         why = "differs from the model: " + "; ".join(f"{k}.{n}: {post[k].get(n)} vs {model[k].get(n)}" for k in post for n in set(post[k]) | set(model[k]) if post[k].get(n) != model[k].get(n))
             cur_u = bind.get(x) if op == "u.laws=" else None
             keystyle = "[" in op
-            if keystyle:
+            if keystyle and not warn:
                 # through the accessors as well: a key-style store must not leave a shadow entry that hides the property
                 for u_ in US:
                     g_ = h.getattr(p.O[u_], "laws")
@@ -180,12 +192,16 @@ def run(ctx):
                     if why is None and not (g_.kind == "return" and ((g_.value is None and want_ is None) or (isinstance(g_.value, Obj) and g_.value.name == want_))):
                         why = f"afterwards {u_}.laws reads {g_!r}, the model has {want_}"
                 op = {"u['laws']=": "u.laws=", "L['applies_to']=": "L.applies_to="}[op]
+            elif keystyle:
+                op = {"u['laws']=": "u.laws=", "L['applies_to']=": "L.applies_to="}[op]
             cls = classify(op, x, y, bind) + (",key-style-assignment" if keystyle else "") + (",universe-holds-a-universe-as-vertex" if nested else "")
             res.ob(why is None, sig=(tuple(sorted(bind.items())), op, x, y, nested), sample={"binding": bind, "call": op, "target": x, "value": y, "outcome": repr(out), "post": post})
             if why:
                 res.violation("I19-STEP", {"u.laws=": UNI + ".laws[set]", "L.applies_to=": LAWS + ".applies_to[set]"}.get(op, UNI + ".__init__"), cls,
                               f"{op} target={x} value={y} on binding {bind}: {why}", detail=f"pre {p.pre}\npost {post}\nmodel {model}", replay=replay(bind, op, x, y))
-    res.rule("I19-STEP", n)
+    res.rule("I19-STEP" + ("/warnings-as-errors" if warn else ""), n)
+    if warn:
+        return
     readonly(ctx, h, res)
     common.vacuity(res, "I19-STEP", 150)
     res.analysed = common.analysed(ctx, [UNI + ".__init__", LAWS + ".__init__"])
